@@ -17,11 +17,18 @@ class XmlGenerator(TreeListener):
         super().__init__()
         self.xml = {}
 
+    def operand(self, tree):
+        # a Symbol used as an operand (declaration equation) is a reference to the
+        # variable, not its component element (an element can only have one parent)
+        if isinstance(tree, ast.Symbol):
+            return E("local", name=tree.name)
+        return self.xml[tree]
+
     def exitEquation(self, tree: ast.Equation):
         self.xml[tree] = E(
             "equal",
-            self.xml[tree.left],
-            self.xml[tree.right],
+            self.operand(tree.left),
+            self.operand(tree.right),
         )
 
     def exitExpression(self, tree: ast.Expression):
